@@ -197,7 +197,7 @@ theorem stageBlocks_total {H : Hist} {S t cur : Nat} {db : Db} (hr : ∀ x, t < 
 /-- **a reset interrupted INSIDE its block-removal stage resumes** (the stage needs several batches when more
 than S blocks are removed): after any number of its intermediate batches the database reopens to the node of
 the uninterrupted reset. -/
-theorem reset_resumable_inside_block_removal (H : Hist) {B S : Nat} (n n' : Node) (hn : Inv H B n) (hf : FInv H n) (hc : n.cache = [])
+theorem reset_resumable_inside_block_removal (H : Hist) {B S : Nat} (n n' : Node) (hn : Inv H B n) (hb : ∀ i, i ≤ n.height → ∃ y, n.view (Key.exec i) = some (Val.blk y)) (hc : n.cache = [])
     (t : Nat) (bs : List Batch) (hreset : reset H B S n t = .ok (bs, n')) (hbs : bs ≠ []) :
     ∀ d1, d1 = applyBatch (ofWrites [(Key.syncPoint, some (Val.ptr t)), marker stJumpStarted]) n.db →
     ∃ (b2 : List Batch) (d2 : Db), stageBlocks H S t n.height d1 = .ok (b2, d2) ∧
@@ -223,7 +223,7 @@ theorem reset_resumable_inside_block_removal (H : Hist) {B S : Nat} (n n' : Node
   refine ⟨b2, d2, hsb, ?_⟩
   intro j hj
   have hblk : ∀ i, t < i → i ≤ n.height → ∃ y, (applyBatch (ofWrites [(Key.syncPoint, some (Val.ptr t)), marker stJumpStarted]) n.db) (Key.exec i) = some (Val.blk y) := by
-    intro i _ h2; rw [hd1 _ (by simp) (by simp), ← hv]; exact ⟨i, hf.exb i h2⟩
+    intro i _ h2; rw [hd1 _ (by simp) (by simp), ← hv]; exact hb i h2
   -- the prefix database is partially removed
   have hpr : PartRemoved H t n.height (applyBatch (ofWrites [(Key.syncPoint, some (Val.ptr t)), marker stJumpStarted]) n.db) (foldBatches (b2.take j) (applyBatch (ofWrites [(Key.syncPoint, some (Val.ptr t)), marker stJumpStarted]) n.db)) := by
     unfold stageBlocks at hsb
